@@ -1158,10 +1158,6 @@ func Run(c *hx.Ctx) {
 	// two concurrent mutators of one router under a deterministic scheduler, every schedule (rlock.go)
 	runRlockAll(c)
 	// lookups of one virtual host parked mid-walk against the in-place single-route updates; the fast index (vhtable.go)
-	if len(c.Args) > 0 && c.Args[0] == "vht-only" {
-		runVhtAll(c)
-		return
-	}
 	runVhtAll(c)
 	// routers loaded from a directory / from static JSON / built by code, dump -> reload through the real loader (mode.go)
 	runModeAll(c)
